@@ -493,6 +493,37 @@ type nonNegCtx struct {
 	memoF  map[*types.Var]int
 	stores map[*types.Var][]*ssa.Store
 	inPhi  map[*ssa.Phi]bool
+	// The answers must not depend on the order of the queries (the callers iterate over maps). A node in progress is
+	// assumed non-negative when it is met again (induction); a "yes" obtained under an assumption about a node that was
+	// in progress BEFORE the memoised node started is provisional and is not memoised (a "no" under optimistic assumptions
+	// is definite). Every memoised node is evaluated with the depth counter reset, so the cut-off does not depend on who asks.
+	stackPos   map[interface{}]int // node in progress -> its position in the stack of nodes in progress
+	stackLen   int
+	minAssumed int // smallest stack position of a node whose in-progress assumption was used since the last reset
+}
+
+const noAssumption = 1 << 30
+
+func (c *nonNegCtx) push(node interface{}) int {
+	if c.stackPos == nil {
+		c.stackPos = map[interface{}]int{}
+		c.minAssumed = noAssumption
+	}
+	c.stackPos[node] = c.stackLen
+	c.stackLen++
+	return c.stackLen - 1
+}
+
+func (c *nonNegCtx) pop(node interface{}) {
+	delete(c.stackPos, node)
+	c.stackLen--
+}
+
+// assumed records that the in-progress node was taken as non-negative.
+func (c *nonNegCtx) assumed(node interface{}) {
+	if pos, ok := c.stackPos[node]; ok && pos < c.minAssumed {
+		c.minAssumed = pos
+	}
 }
 
 // nonNeg: the value is provably >= 0 at this point.
@@ -636,10 +667,12 @@ func (c *nonNegCtx) nonNeg0(v ssa.Value, at ssa.Instruction, depth int) bool {
 			c.inPhi = map[*ssa.Phi]bool{}
 		}
 		if c.inPhi[x] {
+			c.assumed(x)
 			return true
 		}
 		c.inPhi[x] = true
-		defer delete(c.inPhi, x)
+		c.push(x)
+		defer func() { delete(c.inPhi, x); c.pop(x) }()
 		for i, e := range x.Edges {
 			if c.nonNeg(e, at, depth+1) {
 				continue
@@ -652,12 +685,19 @@ func (c *nonNegCtx) nonNeg0(v ssa.Value, at ssa.Instruction, depth int) bool {
 		return true
 	case *ssa.Parameter:
 		switch c.memoP[x] {
-		case 1, 2:
+		case 1:
+			c.assumed(x)
+			return true
+		case 2:
 			return true
 		case 3:
 			return false
 		}
 		c.memoP[x] = 1
+		myPos := c.push(x)
+		outer := c.minAssumed
+		c.minAssumed = noAssumption
+		depth = 0 // the answer for a parameter does not depend on who asks
 		f := x.Parent()
 		idx := -1
 		for i, q := range f.Params {
@@ -686,10 +726,19 @@ func (c *nonNegCtx) nonNeg0(v ssa.Value, at ssa.Instruction, depth int) bool {
 				}
 			}
 		}
-		if ok {
-			c.memoP[x] = 2
-		} else {
+		used := c.minAssumed
+		c.pop(x)
+		if used < outer {
+			outer = used
+		}
+		c.minAssumed = outer
+		switch {
+		case !ok:
 			c.memoP[x] = 3
+		case used >= myPos: // no assumption about a node that started before this one
+			c.memoP[x] = 2
+		default: // provisional: not memoised
+			delete(c.memoP, x)
 		}
 		return ok
 	case *ssa.UnOp:
@@ -771,24 +820,39 @@ func (c *nonNegCtx) fieldNonNeg(f *types.Var, depth int) bool {
 		}
 	}
 	switch c.memoF[f] {
-	case 1, 2:
+	case 1:
+		c.assumed(f)
+		return true
+	case 2:
 		return true
 	case 3:
 		return false
 	}
 	c.memoF[f] = 1
+	myPos := c.push(f)
+	outer := c.minAssumed
+	c.minAssumed = noAssumption
 	ok := len(c.stores[f]) > 0
 	for _, st := range c.stores[f] {
-		if !c.nonNeg(st.Val, st, depth+1) {
+		if !c.nonNeg(st.Val, st, 0) { // depth reset: the answer for a field does not depend on who asks
 			ok = false
 			break
 		}
 	}
 	// composite literals assign fields without a Store to a FieldAddr only when built in a local Alloc: those are Stores too.
-	if ok {
-		c.memoF[f] = 2
-	} else {
+	used := c.minAssumed
+	c.pop(f)
+	if used < outer {
+		outer = used
+	}
+	c.minAssumed = outer
+	switch {
+	case !ok:
 		c.memoF[f] = 3
+	case used >= myPos:
+		c.memoF[f] = 2
+	default:
+		delete(c.memoF, f)
 	}
 	return ok
 }
